@@ -23,6 +23,8 @@ THEOREMS = [
     "Gwcs.Sip.all_fail_warns",
     "Gwcs.Sip.degList_perm",
     "Gwcs.Sip.fit2D_no_warning_minimal",
+    "Gwcs.Sip.no_warning_degree_permitted",
+    "Gwcs.Sip.inverse_degree_from_inv_degree",
     "Gwcs.Sip.single_degree_ignores_max_error",
     "Gwcs.Sip.reported_ge_both",
     "Gwcs.Sip.reform_sound",
